@@ -816,6 +816,17 @@ pub struct VerifSnapshot {
     )>,
 }
 
+/// verif: true when no task holds a guard into one of the tables (a suspended task may): only then can
+/// [verif_snapshot] be taken without blocking the thread on a shard lock
+#[cfg(feature = "verif_hooks")]
+pub fn verif_quiet() -> bool {
+    let monitor = get_monitor();
+    monitor.map.guards() == 0
+        && monitor.index.guards() == 0
+        && monitor.world_listeners.guards() == 0
+        && monitor.actor_relations.guards() == 0
+}
+
 /// verif: sorted snapshot, taken without scheduling points (call at quiescent points only)
 #[cfg(feature = "verif_hooks")]
 pub fn verif_snapshot() -> VerifSnapshot {
